@@ -11,7 +11,7 @@ EXTENDS EioQueueFineWs, Json, IOUtils, TLCExt
 Tr == JsonDeserialize(IOEnv.TRACE_FILE)
 VARIABLES tid, l
 tvars == <<q, unf, closing, closed, intable, ev, deliv, sent, kind, pc, pk, it, resp,
-           wsopen, gone, inframes, tid, l>>
+           nx, alloc, putord, wsopen, gone, inframes, tid, l>>
 
 Evs == Tr[tid].log
 TraceInit == WsInit /\ tid \in 1..Len(Tr) /\ l = 1
@@ -27,7 +27,8 @@ Consume ==
        IN CASE e.op = "env"       -> IF e.item = "close" THEN ClientSendsClose ELSE ClientGone
             [] e.op = "start"     -> WsStart(p, e.item)
             [] e.op = "get_enter" -> p = Writer /\ StepOf(p) /\ pc'[p] = "wait" /\ q' = q /\ unf' = unf
-            [] e.op = "put"       -> StepOf(p) /\ q' = Append(q, e.item)
+            [] e.op = "put_enter" -> StepOf(p) /\ pc'[p] = "put" /\ it'[p] = e.item /\ q' = q
+            [] e.op = "put"       -> DoPut(p) /\ WsUnch /\ it[p] = e.item
             [] e.op = "get"       -> StepOf(p) /\ q # <<>> /\ Head(q) = e.item /\ q' = Tail(q)
             [] e.op = "task_done" -> StepOf(p) /\ unf' = unf - 1 /\ q' = q
             [] e.op = "ws_close"  -> p = Writer /\ WClose /\ pc'[p] = "w_ret"
